@@ -249,7 +249,7 @@ def route_cases(ctx, out):
             sort = rng.random() < 0.85
             n = rng.choice([0, 1, 2, 3, 3, 4, 5])
             chroms = contigs or ["chr1", "chr2", "chr10", "chrX"]
-            specs = [(rng.choice(["T1", "T2"]), rng.choice(["N1", "N2", ""]), rng.choice(chroms), rng.choice([5, 9, 10, 100]), rng.choice([0, 1, 7]))
+            specs = [(rng.choice(SC.TUMORS if rng.random() < 0.3 else ["T1", "T2"]), rng.choice(["N1", "N2", ""]), rng.choice(chroms), rng.choice([5, 9, 10, 100]), rng.choice([0, 1, 7]))
                      for _ in range(n)]
             if n >= 2 and rng.random() < 0.3:
                 specs[rng.randrange(n)] = specs[rng.randrange(n)]       # equal keys
@@ -365,7 +365,7 @@ def live_cases(ctx, out):
         contigs = rng.choice(sets + [None])
         chroms = contigs or ["chr1", "chr2", "chr10", "chrX"]
         n = rng.choice([2, 3, 4, 5])
-        specs = [(rng.choice(["T1", "T2"]), rng.choice(["N1", "N2", ""]), rng.choice(chroms), rng.choice([5, 9, 10, 100]), 0) for _ in range(n)]
+        specs = [(rng.choice(SC.TUMORS if rng.random() < 0.3 else ["T1", "T2"]), rng.choice(["N1", "N2", ""]), rng.choice(chroms), rng.choice([5, 9, 10, 100]), 0) for _ in range(n)]
         specs = [(t, nn, c, s_, s_ + rng.choice([0, 1, 7])) for (t, nn, c, s_, _e) in specs]
         if rng.random() < 0.55:
             case = {"family": "reused", "order": order, "contigs": contigs, "typed": typed, "sort": rng.random() < 0.8, "specs": specs, "touch": rng.random() < 0.5}
@@ -396,7 +396,7 @@ def run(ctx):
         sort = rng.random() < 0.8
         n = rng.choice([0, 1, 2, 3, 3, 4] + ([5] if ctx.tier == "thorough" else []))
         chroms = contigs or ["chr1", "chr2", "chr10", "chrX"]
-        specs = [(rng.choice(["T1", "T2"]), rng.choice(["N1", "N2", ""]), rng.choice(chroms), rng.choice([5, 9, 10, 100]), rng.choice([0, 1, 7]))
+        specs = [(rng.choice(SC.TUMORS if rng.random() < 0.3 else ["T1", "T2"]), rng.choice(["N1", "N2", ""]), rng.choice(chroms), rng.choice([5, 9, 10, 100]), rng.choice([0, 1, 7]))
                  for _ in range(n)]
         perms = list(itertools.permutations(range(n))) if n <= (5 if ctx.tier == "thorough" else 4) else []
         rng.shuffle(perms)
